@@ -106,6 +106,11 @@ BREAKS = [
     dict(id="c14_sorted_by_id_for_ties", targets=["C14", "C01"],
          edits=[([COMMON], "zipped_matrix.sort(key=_pick_zeroth_index)", "zipped_matrix.sort(key=lambda it: (it[0], str(getattr(it[1][0][0], 'id', '')) if isinstance(it[1][0], list) and it[1][0] and hasattr(it[1][0][0], 'id') else ''))")]),
     # ---------------------------------------------------------------- C15
+    dict(id="c14_inflation_guard_not_cleared_on_error", targets=["C14"],
+         edits=[([PL], "class PlackettLuceRating:", "_INFLATED: set = set()\n\n\nclass PlackettLuceRating:", 1),
+                ([PL], "                teams[team_index][player_index].sigma = math.sqrt(\n                    player.sigma * player.sigma + tau_squared\n                )",
+                 "                if id(player) not in _INFLATED:\n                    _INFLATED.add(id(player))\n                    teams[team_index][player_index].sigma = math.sqrt(\n                        player.sigma * player.sigma + tau_squared\n                    )"),
+                ([PL], "        return final_result", "        _INFLATED.clear()\n        return final_result")]),
     dict(id="c15_revert_tau_truthiness_one_copy", targets=["C15", "C14"], edits=[([BTP], "tau = tau if tau is not None else self.tau", "tau = tau if tau else self.tau")]),
     dict(id="c15_limit_false_ignored", targets=["C15"], edits=[([PL], "if limit_sigma is None:\n            limit_sigma = self.limit_sigma", "if not limit_sigma:\n            limit_sigma = self.limit_sigma")]),
     # ---------------------------------------------------------------- C16
